@@ -7,3 +7,4 @@ import DateutilVerif.Properties.C20
 #print axioms C20.parse_tzstr_errors_ValueError
 #print axioms C20.sep_exact
 #print axioms C20.fields_are_digits
+#print axioms C20.parse_tzstr_sound
